@@ -201,6 +201,15 @@ class Local:
 
     def __init__(self, design: dict, m: dict):
         self.design = design
+        if m.get("pre_conns"):
+            # connections made first and replaced later: only the last connection of a port counts, so a "pre-connection" means
+            # something only where the design gives the port no other connection
+            m = dict(m)
+            m["insts"] = [dict(i, conns=dict(i["conns"])) for i in m["insts"]]
+            for iname, port, e in m["pre_conns"]:
+                for i in m["insts"]:
+                    if i["name"] == iname and port not in i["conns"]:
+                        i["conns"][port] = e
         self.m = m
         self.uf = UF()
         self.sigw: Dict[str, int] = {}
@@ -398,9 +407,16 @@ class Local:
             missing = want - set(M.keys())
             raise Invalid("missing-member" if missing else "extra-connection",
                           f"{what}: members {sorted(M.keys())} vs {sorted(want)}")
-        for el in els:
-            for path, w in leaves:
-                self.join(self.t(el, portkey(port, *path), w), M[path], f"{what}.{'.'.join(path)}")
+        n = inst.get("n", 1) if inst.get("kind") == "array" else 1
+        for path, w in leaves:
+            B = M[path]
+            if n > 1 and len(B) == n * w:
+                # (arrays: a member n times as wide as the port's is wired one chunk per element, like any array connection)
+                for k, el in enumerate(els):
+                    self.join(self.t(el, portkey(port, *path), w), B[k * w:(k + 1) * w], f"{what}.{'.'.join(path)}")
+            else:
+                for el in els:
+                    self.join(self.t(el, portkey(port, *path), w), B, f"{what}.{'.'.join(path)}")
 
     def _compute(self):
         m = self.m
